@@ -30,6 +30,10 @@ func c02exec(c *h.Ctx, cs *h.Case) {
 		c02tlsExec(c, cs)
 		return
 	}
+	if strings.HasPrefix(cs.Class, "tlsnet") {
+		c02tlsnetExec(c, cs)
+		return
+	}
 	f := c04get()
 	var ct c04tree
 	var nodes []*onet.TreeNode
@@ -928,6 +932,7 @@ func c02gen(c *h.Ctx, yield func(*h.Case)) {
 		}
 	}
 	c02tlsGen(c, yield)
+	c02tlsnetGen(c, yield)
 	// random sequences on bigger fan-outs
 	for i := 0; i < c.Pick(150, 3000); i++ {
 		root := r.Intn(2) == 0
